@@ -74,6 +74,15 @@ pub fn replay_set(rep: &mut Report, rec: &J) {
 				}
 			}
 		}
+		// Default is the empty set; a set equals itself rebuilt from its own iterator (FromIterator-like folds), in either direction
+		if KindSet::default() != KindSet::none() || KindSet::default().len() != 0 {
+			rep.mismatch("C20.set", json!({"what": "KindSet::default() is not the empty set", "vector": rec}));
+		}
+		let refold = s.iter().fold(KindSet::none(), |a, k| a | k);
+		let refold_back = s.iter().rev().fold(KindSet::none(), |a, k| k | a);
+		if refold != s || refold_back != s {
+			rep.mismatch("C20.iter", json!({"what": "a set rebuilt from its own iterator differs from the set", "vector": rec}));
+		}
 		// all() and none()
 		if (s == KindSet::all()) != (rec["len"] == 6) || (s == KindSet::none()) != (rec["len"] == 0) {
 			rep.mismatch("C20.set", json!({"what": "all()/none() disagree with the set", "vector": rec}));
